@@ -1,10 +1,10 @@
 (* C18 — Arena-backed containers and strings behave like their abstract data types.
    This file holds ONLY the property theorems (each closed by `exact <lemma>`) and their Print Assumptions. *)
-From Coq Require Import ZArith List Bool Permutation.
+From Coq Require Import ZArith List Bool Permutation Lia.
 From Verif Require Import Containers.BitVecModel Containers.BitVecProofs Containers.ArenaModel Containers.ArenaProofs
-  Containers.VecModel Containers.VecProofs Containers.WorldProofs Containers.World2Proofs Containers.HashModel Containers.HashProofs Containers.NameHashModel Containers.NameHashProofs Containers.StrModel Containers.StrProofs
-  Containers.TreeModel Containers.TreeProofs Containers.TreeGeneral Containers.TreeRotate Containers.TreeRecolor Containers.TreeLink Containers.TreeInsertAbs Containers.TreeInsertRefine Containers.TreeRemoveAbs Containers.TreeRemoveRefine Containers.ArenaChainModel Containers.ArenaChainProofs Containers.ArenaChainGeneral Containers.C18Examples
-  Containers.ListModel Containers.ListProofs Containers.ListGeneral Containers.ListFrame Containers.BitSetModel Containers.BitSetProofs Containers.BitSetWords Containers.RangeIterModel Containers.RangeIterProofs Containers.RangeIterGeneral Containers.RangeIterCompose.
+  Containers.VecModel Containers.VecProofs Containers.WorldProofs Containers.World2Proofs Containers.HashModel Containers.HashProofs Containers.NameHashModel Containers.NameHashProofs Containers.StrModel Containers.StrProofs Containers.StrMove
+  Containers.TreeModel Containers.TreeProofs Containers.TreeGeneral Containers.TreeRotate Containers.TreeRecolor Containers.TreeLink Containers.TreeInsertAbs Containers.TreeInsertRefine Containers.TreeRemoveAbs Containers.TreeRemoveRefine Containers.TreeOps Containers.TreeKeys Containers.TreeMap Containers.ArenaChainModel Containers.ArenaChainProofs Containers.ArenaChainGeneral Containers.C18Examples
+  Containers.ListModel Containers.ListProofs Containers.ListGeneral Containers.ListFrame Containers.ListOps Containers.PoolOps Containers.BitSetModel Containers.BitSetProofs Containers.BitSetWords Containers.BitSetOps Containers.RangeIterModel Containers.RangeIterProofs Containers.RangeIterGeneral Containers.RangeIterCompose.
 From VerifGen Require Import C18HashTable C18VecTable.
 Import ListNotations.
 Local Open Scope Z_scope.
@@ -228,6 +228,23 @@ Theorem C18_str_format_failure_keeps_string : forall mok s op text, str_inv s ->
 Proof. exact str_op_format_sound. Qed.
 Print Assumptions C18_str_format_failure_keeps_string.
 
+(* String::swap, move assignment (swap + other.reset()) and move construction on plain Strings (round 6): both strings stay
+   valid, the contents are exchanged / transferred, the moved-from string is the empty small string *)
+Theorem C18_str_swap : forall a b, str_inv a -> str_inv b ->
+  let '(a', b') := str_swap a b in str_inv a' /\ str_inv b' /\ str_abs a' = str_abs b /\ str_abs b' = str_abs a /\ a' = b /\ b' = a.
+Proof. exact str_swap_sound. Qed.
+Print Assumptions C18_str_swap.
+Theorem C18_str_move_assign : forall a b, str_inv a -> str_inv b ->
+  let '(a', b') := str_move_assign a b in str_inv a' /\ str_inv b' /\ str_abs a' = str_abs b /\ a' = b /\ b' = str_empty /\ str_abs b' = [].
+Proof. exact str_move_assign_sound. Qed.
+Print Assumptions C18_str_move_assign.
+Theorem C18_str_move_construct : forall b, str_inv b ->
+  let '(t, b') := str_move_construct b in str_inv t /\ str_inv b' /\ str_abs t = str_abs b /\ b' = str_empty /\ str_abs b' = [].
+Proof. exact str_move_construct_sound. Qed.
+Print Assumptions C18_str_move_construct.
+Example C18_str_move_hypotheses_satisfiable : str_inv str_empty /\ str_inv (str_tmp 200).
+Proof. split; [exact str_inv_empty|]. unfold str_inv, str_tmp; cbn [s_size s_cap s_buf s_kind]. split; [vm_compute; split; discriminate|]. split; [reflexivity|]. split; [reflexivity|discriminate]. Qed.
+
 Example C18_str_hypotheses_satisfiable : str_inv str_empty /\ str_abs str_empty = [].
 Proof. split; [exact str_inv_empty|reflexivity]. Qed.
 
@@ -376,6 +393,12 @@ Theorem C18_list_walks : forall d l, drep d l -> (length l < 1000)%nat -> dl_for
 Proof. exact dl_walks_sound. Qed.
 Print Assumptions C18_list_walks.
 
+(* ... for EVERY fuel above the length (the 1000 above is only the fuel of the executable model) *)
+Theorem C18_list_walks_any_fuel : forall d l fuel, drep d l -> (length l < fuel)%nat ->
+  walk fuel (dl_heap d) (dl_first d) true = l /\ walk fuel (dl_heap d) (dl_last d) false = rev l.
+Proof. exact dl_walks_any_fuel. Qed.
+Print Assumptions C18_list_walks_any_fuel.
+
 (* ArenaList at full strength (round 5): what the operations do NOT change.  The link words of every node that is neither a
    member of the list nor the node handed to the operation stay exactly as they were, for lists of any length; as a
    consequence a second list kept in the same node heap still represents the same sequence. *)
@@ -404,6 +427,28 @@ Theorem C18_list_add_keeps_other_list : forall d l node dir l' f' t', drep d l -
 Proof. exact dl_add_keeps_other_list. Qed.
 Print Assumptions C18_list_add_keeps_other_list.
 
+(* ArenaList over ANY SEQUENCE of operations (round 6, ListOps.v): preconditions on the textbook list only (new node non-null and
+   not a member; reference / unlinked node a member; pops on a non-empty list); the heap always represents the textbook list, and
+   from the empty list the forward and backward walks read it and its reverse *)
+Theorem C18_list_any_sequence : forall ops d l, drep d l -> dlpres l ops -> drep (fold_left dlstep ops d) (dltext_all l ops).
+Proof. exact list_any_sequence. Qed.
+Print Assumptions C18_list_any_sequence.
+
+Theorem C18_list_any_sequence_from_empty : forall ops fuel, dlpres [] ops -> (length (dltext_all [] ops) < fuel)%nat ->
+  let d := fold_left dlstep ops dlist_empty in
+  walk fuel (dl_heap d) (dl_first d) true = dltext_all [] ops /\ walk fuel (dl_heap d) (dl_last d) false = rev (dltext_all [] ops).
+Proof. exact list_any_sequence_from_empty. Qed.
+Print Assumptions C18_list_any_sequence_from_empty.
+Example C18_list_any_sequence_computed :
+  let ops := [DApp 5; DApp 6; DPre 4; DInsA 5 7; DInsB 4 8; DUnl 6; DPop; DPopF; DApp 9] in
+  dlpres [] ops /\ dltext_all [] ops = [4; 5; 9] /\ dl_forward (fold_left dlstep ops dlist_empty) = [4; 5; 9] /\
+  dl_backward (fold_left dlstep ops dlist_empty) = [9; 5; 4].
+Proof.
+  cbv zeta. split; [|split; [reflexivity|split; vm_compute; reflexivity]].
+  cbv [dlpres dlpre dltext app ins_after ins_before rem1 tl removelast Z.eqb Pos.eqb In].
+  repeat split; try discriminate; try (intros Hc; intuition discriminate); auto 10.
+Qed.
+
 (* ArenaPool: an item comes from the pool (a released, distinct, still live one-shot block) or from the arena *)
 Theorem C18_pool_alloc : forall mok a p item, inv a -> 0 < item <= 2 ^ 32 ->
   let sz := ((item + 7) / 8) * 8 in
@@ -417,6 +462,42 @@ Print Assumptions C18_pool_alloc.
 Theorem C18_pool_release : forall a p sz x, pool_inv a p sz -> In (x, sz) (live a) -> ~ In x p -> pool_inv a (pool_release p x) sz.
 Proof. exact pool_release_sound. Qed.
 Print Assumptions C18_pool_release.
+
+(* ArenaPool over ANY SEQUENCE of allocations and releases (round 6, PoolOps.v).  PInv a p U sz: arena invariant, free list of
+   distinct live items, U = the items handed out and not yet released, each a live block of the item size and not in the free
+   list.  The pool NEVER hands out an item that is in use (from the free list or fresh from the arena). *)
+Theorem C18_pool_never_hands_out_item_in_use : forall mok a p U item, 0 < item <= 2 ^ 32 ->
+  let sz := ((item + 7) / 8) * 8 in
+  PInv a p U sz ->
+  let '(r, a', p') := pool_alloc mok a p item in
+  match r with
+  | Some x => ~ In x U /\ PInv a' p' (x :: U) sz
+  | None => PInv a' p' U sz
+  end.
+Proof. exact pool_alloc_in_use. Qed.
+Print Assumptions C18_pool_never_hands_out_item_in_use.
+
+Theorem C18_pool_release_in_use : forall a p U sz x, PInv a p U sz -> In x U ->
+  PInv a (pool_release p x) (urem x U) sz /\ ~ In x (urem x U).
+Proof. exact pool_release_in_use. Qed.
+Print Assumptions C18_pool_release_in_use.
+
+Theorem C18_pool_any_sequence : forall mok item, 0 < item <= 2 ^ 32 -> forall ops a p U,
+  PInv a p U (((item + 7) / 8) * 8) -> ppres mok item (a, p, U) ops ->
+  let '(a', p', U') := fold_left (pstep mok item) ops (a, p, U) in PInv a' p' U' (((item + 7) / 8) * 8).
+Proof. exact pool_any_sequence. Qed.
+Print Assumptions C18_pool_any_sequence.
+Example C18_pool_any_sequence_computed :
+  let mok := fun _ : Z => true in
+  PInv (arena_init 1024 0) [] [] (((24 + 7) / 8) * 8) /\
+  (let '(a1, p1, U1) := fold_left (pstep mok 24) [PAlloc; PAlloc] (arena_init 1024 0, [], []) in
+   length U1 = 2%nat /\ p1 = [] /\
+   let x := hd (mkaddr 0 0) U1 in
+   let '(a2, p2, U2) := fold_left (pstep mok 24) [PRel x; PAlloc] (a1, p1, U1) in In x U1 /\ hd (mkaddr 0 0) U2 = x /\ length U2 = 2%nat).
+Proof.
+  cbv zeta. split; [apply pinv_init; apply inv_init; [vm_compute; intuition discriminate|left; reflexivity]|].
+  vm_compute. repeat split; auto.
+Qed.
 
 (* ================================================================== several containers sharing one arena *)
 (* a step on one vector (any operation, incl. reallocation and release) keeps every OTHER live block of the arena live and,
@@ -543,14 +624,51 @@ Theorem C18_range_iterator_all_ranges_complete : forall W (b : bool) ws start en
   (start / W) * W < end_ -> end_ <= W * zlen ws -> chainc W b ws start end_ (ranges W b ws start end_ hint).
 Proof. exact ranges_sound_complete. Qed.
 Print Assumptions C18_range_iterator_all_ranges_complete.
+(* where the reported range lies relative to `end` (round 6).  Live: an iterator with a non-empty word stands on a word that
+   starts before end.  Besides everything C18_range_iterator_next says, the range starts in a word q that starts before end and
+   its unclipped end e0 is at most the end of a word q' that starts before end; Live is kept.  So s < e <= end unless the run
+   starts at or after end inside the last, partial word (the recorded inverted range) ... *)
+Theorem C18_range_iterator_next_bounds : forall W (b : bool) ws, 0 < W -> (forall p, word_ok W (mword W b ws p)) ->
+  forall it c hint s e it', Inv W b ws it c -> Live it -> ri_next W b ws it hint = Some (s, e, it') ->
+  exists e0, c <= s < e0 /\ run W b ws c s false /\ run W b ws s e0 true /\ e = Z.min e0 (ri_end it) /\ ri_end it' = ri_end it /\
+   ((Inv W b ws it' e0 /\ exists p k, 0 <= k < W /\ e0 = W * p + k /\ Z.testbit (mword W b ws p) k = false)
+    \/ (Inv W b ws it' e0 /\ ri_word it' = 0)
+    \/ (ri_word it' = 0 /\ ri_idx it' >= ri_end it' /\ e0 >= ri_end it)) /\
+   Live it' /\
+   exists q q', W * q <= s < W * q + W /\ W * q < ri_end it /\ W * q' < ri_end it /\ e0 <= W * q' + W.
+Proof. exact next_inv2. Qed.
+Print Assumptions C18_range_iterator_next_bounds.
+
+(* ... and when end is a multiple of the word width (whole words, as JitAllocator uses it) NOTHING is clipped: the reported list
+   is exactly increasing ranges [s, e) inside [start, end), b at every position of a range, no b between them nor after the
+   last one up to end (chaina) *)
+Theorem C18_range_iterator_aligned_end : forall W (b : bool) ws start m hint, 0 < W -> words_ok W ws -> 0 <= start < W * m ->
+  m <= zlen ws -> chaina W b ws start (W * m) (ranges W b ws start (W * m) hint).
+Proof. exact ranges_aligned_sound. Qed.
+Print Assumptions C18_range_iterator_aligned_end.
+
+(* ... and MAXIMAL: when moreover the hint exceeds end (the default hint is SIZE_MAX) the extend loop is never cut, every reported
+   range ends at end or at a position that does not hold b, so the reported ranges are exactly the maximal runs of b in
+   [start, end) (chainx = chaina + that clause) *)
+Theorem C18_range_iterator_maximal_runs : forall W (b : bool) ws start m hint, 0 < W -> words_ok W ws -> 0 <= start < W * m ->
+  m <= zlen ws -> W * m < hint -> W * m < 2 ^ 64 -> chainx W b ws start (W * m) (ranges W b ws start (W * m) hint).
+Proof. exact ranges_aligned_max_sound. Qed.
+Print Assumptions C18_range_iterator_maximal_runs.
+
+(* ... and for ANY hint (JitAllocator passes the number of blocks it needs): a reported range ends at end, at a position that does
+   not hold b, or it has reached the hint (hint <= e - s) - only then may a run of b be cut (chainh) *)
+Theorem C18_range_iterator_any_hint : forall W (b : bool) ws start m hint, 0 < W -> words_ok W ws -> 0 <= start < W * m ->
+  m <= zlen ws -> W * m < 2 ^ 64 -> chainh W b ws hint start (W * m) (ranges W b ws start (W * m) hint).
+Proof. exact ranges_aligned_hint_sound. Qed.
+Print Assumptions C18_range_iterator_any_hint.
 (* non-vacuity: the hypotheses hold for the 4-bit words 0110 1111 0001, and the computed answers *)
 Example C18_range_iterator_all_ranges_computed :
-  words_ok 4 [6; 15; 1] /\ 12 <= 4 * zlen [6; 15; 1] /\ Inv 4 true [6; 15; 1] (ri_init 4 true [6; 15; 1] 0 12) 0 /\
+  words_ok 4 [6; 15; 1] /\ 12 <= 4 * zlen [6; 15; 1] /\ 3 <= zlen [6; 15; 1] /\ Live (ri_init 4 true [6; 15; 1] 0 12) /\ Inv 4 true [6; 15; 1] (ri_init 4 true [6; 15; 1] 0 12) 0 /\
   ranges 4 true [6; 15; 1] 0 12 100 = [(1, 3); (4, 9)] /\ ranges 4 true [6; 15; 1] 0 12 2 = [(1, 3); (4, 8); (8, 9)] /\
   ranges 4 false [6; 15; 1] 2 12 100 = [(3, 4); (9, 12)].
 Proof.
   assert (H : words_ok 4 [6; 15; 1]) by (repeat constructor; cbv; intuition discriminate).
-  split; [exact H|]. split; [discriminate|]. split; [apply init_inv; [reflexivity|apply mword_ok; [reflexivity|exact H]|discriminate|reflexivity]|].
+  split; [exact H|]. split; [discriminate|]. split; [discriminate|]. split; [apply init_live|]. split; [apply init_inv; [reflexivity|apply mword_ok; [reflexivity|exact H]|discriminate|reflexivity]|].
   vm_compute. auto.
 Qed.
 
@@ -863,6 +981,106 @@ Theorem C18_tree_remove_any_height : forall fuel t T b node,
 Proof. exact tree_remove_any_height. Qed.
 Print Assumptions C18_tree_remove_any_height.
 
+(* ================================================================== ArenaTree over ANY SEQUENCE of operations (round 6, TreeOps.v).
+   The proven state checker is COMPLETE (it accepts every represented red-black search tree with a black root and ids > 1 whose
+   height is below its fuel), so the "ok=1" that the model driver prints after every executed tree command is a theorem.
+   TInv t keys I: the heap holds a red-black search tree, black root, distinct ids > 1 among the ids I handed out so far, whose
+   in-order key sequence is the textbook strictly sorted list `keys`. *)
+Theorem C18_tree_state_checker_complete : forall t T b, rep (heap t) (root t) T -> (bheight T < 200)%nat ->
+  (forall i, In i (bids T) -> 1 < i) -> bbh T = Some b -> bred T = false -> sortedb (bkeys T) = true -> tree_state_ok t = true.
+Proof. exact tree_state_ok_complete. Qed.
+Print Assumptions C18_tree_state_checker_complete.
+
+Theorem C18_tree_invariant_insert : forall t keys I node kn, TInv t keys I -> 1 < node -> ~ In node I -> ~ In kn keys ->
+  Z.of_nat (length keys) + 2 < 2 ^ 49 ->
+  let t' := tree_insert t node kn in
+  exists L R, keys = L ++ R /\ TInv t' (L ++ kn :: R) (node :: I) /\ tree_state_ok t' = true /\
+    (forall k, tree_get t' k <> 0 <-> k = kn \/ In k keys) /\
+    (forall i, ~ In i I -> i <> HEAD -> i <> node -> hget (heap t') i = hget (heap t) i).
+Proof. exact tinv_insert. Qed.
+Print Assumptions C18_tree_invariant_insert.
+
+(* remove of the node that get finds for a member key (how the library's users remove by key) *)
+Theorem C18_tree_invariant_remove : forall t keys I kn, TInv t keys I -> In kn keys -> Z.of_nat (length keys) + 1 < 2 ^ 49 ->
+  let node := tree_get t kn in
+  let t' := tree_remove t node in
+  exists L R, keys = L ++ kn :: R /\ TInv t' (L ++ R) I /\ tree_state_ok t' = true /\ node <> 0 /\ key (heap t) node = kn /\
+    (forall k, tree_get t' k <> 0 <-> In k (L ++ R)) /\
+    (forall i, ~ In i I -> i <> HEAD -> hget (heap t') i = hget (heap t) i).
+Proof. exact tinv_remove. Qed.
+Print Assumptions C18_tree_invariant_remove.
+
+Theorem C18_tree_invariant_reads : forall t keys I, TInv t keys I -> Z.of_nat (length keys) + 1 < 2 ^ 49 ->
+  tree_keys t = keys /\ sortedb keys = true /\ (forall k, tree_get t k <> 0 <-> In k keys) /\ tree_state_ok t = true.
+Proof. exact tinv_reads. Qed.
+Print Assumptions C18_tree_invariant_reads.
+
+(* any sequence: preconditions in textbook terms only (fresh node id and new key for insert, member key for remove, fewer than
+   2^49 - 2 keys = the loop fuel of the executable model); the key list follows the textbook sorted insertion / deletion, and no
+   heap cell outside the ids handed out and the false root is ever written *)
+Theorem C18_tree_any_sequence : forall ops t keys I, TInv t keys I -> kpres keys I ops ->
+  TInv (fold_left kstep ops t) (kkeys_all keys ops) (kids_all I ops) /\
+  (forall i, ~ In i (kids_all I ops) -> i <> HEAD -> hget (heap (fold_left kstep ops t)) i = hget (heap t) i).
+Proof. exact tree_any_sequence. Qed.
+Print Assumptions C18_tree_any_sequence.
+
+Theorem C18_tree_any_sequence_from_empty : forall ops, kpres [] [] ops -> Z.of_nat (length (kkeys_all [] ops)) + 1 < 2 ^ 49 ->
+  let t := fold_left kstep ops tree_empty in
+  tree_keys t = kkeys_all [] ops /\ sortedb (tree_keys t) = true /\ (forall k, tree_get t k <> 0 <-> In k (kkeys_all [] ops)) /\
+  tree_state_ok t = true.
+Proof. exact tree_any_sequence_from_empty. Qed.
+Print Assumptions C18_tree_any_sequence_from_empty.
+
+(* the tree operations NEVER WRITE A KEY (round 6, TreeKeys.v): unconditionally - any heap, any fuel, any cell - the key field
+   after insert / remove equals the key field before, except the inserted node's cell (it holds the new key) and the false root.
+   With the refinement theorems: a node stays under its key for its whole life in the tree. *)
+Theorem C18_tree_insert_keeps_keys : forall fuel t node kn i, i <> HEAD -> i <> node ->
+  key (heap (tree_insert_f fuel t node kn)) i = key (heap t) i.
+Proof. exact tree_insert_keeps_keys. Qed.
+Print Assumptions C18_tree_insert_keeps_keys.
+Theorem C18_tree_insert_sets_key : forall fuel t node kn, 1 < node -> key (heap (tree_insert_f fuel t node kn)) node = kn.
+Proof. exact tree_insert_sets_key. Qed.
+Print Assumptions C18_tree_insert_sets_key.
+Theorem C18_tree_remove_keeps_keys : forall fuel t node i, i <> HEAD -> key (heap (tree_remove_f fuel t node)) i = key (heap t) i.
+Proof. exact tree_remove_keeps_keys. Qed.
+Print Assumptions C18_tree_remove_keeps_keys.
+
+(* ArenaTree is the textbook FINITE MAP key -> node (round 6, TreeMap.v): insert updates the map at the new key only, remove (of
+   the node found for a member key) clears it at that key only; over any sequence, get of the model state is the function
+   obtained by the same updates, starting from the constant null map for the empty tree *)
+Theorem C18_tree_insert_map : forall t keys I node kn, TInv t keys I -> 1 < node -> ~ In node I -> ~ In kn keys ->
+  Z.of_nat (length keys) + 2 < 2 ^ 49 ->
+  forall k, tree_get (tree_insert t node kn) k = if k =? kn then node else tree_get t k.
+Proof. exact tinv_insert_map. Qed.
+Print Assumptions C18_tree_insert_map.
+Theorem C18_tree_remove_map : forall t keys I kn, TInv t keys I -> In kn keys -> Z.of_nat (length keys) + 1 < 2 ^ 49 ->
+  forall k, tree_get (tree_remove t (tree_get t kn)) k = if k =? kn then 0 else tree_get t k.
+Proof. exact tinv_remove_map. Qed.
+Print Assumptions C18_tree_remove_map.
+Theorem C18_tree_any_sequence_map : forall ops t keys I, TInv t keys I -> kpres keys I ops ->
+  forall k, tree_get (fold_left kstep ops t) k = kmap_all (tree_get t) ops k.
+Proof. exact tree_any_sequence_map. Qed.
+Print Assumptions C18_tree_any_sequence_map.
+Theorem C18_tree_map_from_empty : forall ops, kpres [] [] ops ->
+  forall k, tree_get (fold_left kstep ops tree_empty) k = kmap_all (fun _ => 0) ops k.
+Proof. exact tree_map_from_empty. Qed.
+Print Assumptions C18_tree_map_from_empty.
+Example C18_tree_map_computed :
+  let ops := [KIns 2 10; KIns 3 5; KIns 4 20; KRem 10; KIns 5 7; KRem 20; KIns 6 1] in
+  map (tree_get (fold_left kstep ops tree_empty)) [1; 5; 7; 10; 20; 99] = [6; 3; 5; 0; 0; 0] /\
+  map (kmap_all (fun _ => 0) ops) [1; 5; 7; 10; 20; 99] = [6; 3; 5; 0; 0; 0].
+Proof. split; vm_compute; reflexivity. Qed.
+(* non-vacuity: a sequence that satisfies the preconditions, its textbook result, and the computed model state *)
+Example C18_tree_any_sequence_computed :
+  let ops := [KIns 2 10; KIns 3 5; KIns 4 20; KRem 10; KIns 5 7; KRem 20; KIns 6 1] in
+  kpres [] [] ops /\ kkeys_all [] ops = [1; 5; 7] /\ tree_keys (fold_left kstep ops tree_empty) = [1; 5; 7] /\
+  tree_state_ok (fold_left kstep ops tree_empty) = true.
+Proof.
+  cbv zeta. split; [|split; [reflexivity|split; vm_compute; reflexivity]].
+  cbn [kpres kpre kkeys kids sins srem Z.ltb Z.eqb Z.compare Pos.compare Pos.compare_cont Pos.eqb length].
+  repeat split; try (intros Hc; cbn [In] in Hc; intuition discriminate); try (cbn [In]; auto; fail); try reflexivity.
+Qed.
+
 (* ArenaBitSet::resize growing, as a whole (reallocation through the shared arena included): on kOk the old bits are kept, the
    new bits have the requested value, the invariant (capacity/64 words in a live arena block released as capacity/8 bytes,
    unused bits clear) and the arena invariant hold; on kOutOfMemory the bit set is untouched *)
@@ -988,6 +1206,29 @@ Theorem C18_bitset_copy_from : forall mok a a' b o, inv a -> bs_inv2 a b -> bs_i
    \/ (e = EOutOfMemory /\ b' = b /\ bs_inv a1 b)).
 Proof. exact bs_copy_from_sound. Qed.
 Print Assumptions C18_bitset_copy_from.
+
+(* ArenaBitSet over ANY SEQUENCE of its in-place operations (round 6, BitSetOps.v): set_bit, clear_all, fill_all, truncate, resize
+   to a smaller size; textbook = (size, bit function) updated the same way; preconditions on the textbook size only *)
+Theorem C18_bitset_any_sequence : forall a ops b s, bs_inv a b -> BAbs b s -> bspres s ops ->
+  bs_inv a (fold_left bsstep ops b) /\ BAbs (fold_left bsstep ops b) (fold_left bstext ops s).
+Proof. exact bitset_any_sequence. Qed.
+Print Assumptions C18_bitset_any_sequence.
+Example C18_bitset_any_sequence_computed :
+  let mok := fun _ : Z => true in
+  let ops := [BsSet 3 false; BsTrunc 50; BsSet 7 false; BsShrink 10] in
+  let '(e, a1, b1) := bs_resize mok (arena_init 1024 0) bitset_empty 100 100 true in
+  e = EOk /\ bs_inv a1 b1 /\ BAbs b1 (100, fun _ => true) /\ bspres (100, fun _ => true) ops /\
+  b_size (fold_left bsstep ops b1) = 10 /\ map (bs_bit (fold_left bsstep ops b1)) [0; 3; 7; 9] = [true; false; false; true].
+Proof.
+  cbv zeta. destruct ex_bitset_empty as [Hinv [Hbs _]].
+  pose proof (bs_resize_grow_sound (fun _ : Z => true) (arena_init 1024 0) bitset_empty 100 true Hinv Hbs ltac:(cbn; lia)) as H.
+  destruct (bs_resize (fun _ : Z => true) (arena_init 1024 0) bitset_empty 100 100 true) as [[e a1] b1] eqn:E.
+  assert (Ee : e = EOk) by (vm_compute in E; congruence).
+  destruct H as [_ [(_ & B & Sz & Bits)|(Eo & _)]]; [|congruence].
+  split; [exact Ee|]. split; [exact B|]. split; [split; [exact Sz|intros j Hj; cbn [fst snd] in *; rewrite Bits by lia; cbn [b_size bitset_empty]; destruct (j <? 0) eqn:X; [apply Z.ltb_lt in X; lia|reflexivity]]|].
+  split; [cbn; lia|]. assert (Eb : b1 = snd (bs_resize (fun _ : Z => true) (arena_init 1024 0) bitset_empty 100 100 true)) by (rewrite E; reflexivity).
+  rewrite Eb. split; vm_compute; reflexivity.
+Qed.
 
 (* ================================================================== non-vacuity of the round 3-5 theorems: concrete instances of their
    hypotheses (Containers/C18Examples.v), with the conclusions computed on them *)
